@@ -111,6 +111,8 @@ class Emit:
                     continue
                 ov = cfg.get("param_types", {}).get(p["name"])
                 ty = ov if ov else parse_ty(p["ty"], generics)
+                if not ov and isinstance(ty, tuple) and ty[:1] == ("ref",) and isinstance(ty[2], tuple) and ty[2][:1] == ("gen",) and cfg.get("lifted"):
+                    ty = ("reader",)      # a helper that is handed the caller's reader
                 if ty == ("reader",) or ty == ("skip",):
                     f.env[p["name"]] = ty
                     continue
@@ -129,6 +131,7 @@ class Emit:
             body = fn["body"]
             impl = "{R} " if "R" in generics and cfg.get("generic_R") else ""
             monad = cfg.get("monad", "MF")
+            touch = ("let _ := %s in\n  " % cfg["touch"]) if cfg.get("touch") else ""      # keeps the arity after End Section independent of which section variables the body happens to use
             rty = coq_ty(rt, [f.env[o] for o in f.outs])
             if cfg.get("ret_repr"):
                 rty = cfg["ret_repr"][1]
@@ -143,22 +146,22 @@ class Emit:
                     raise Unsupported("async fn without an await")
                 q, post = f.post
                 bs = " ".join(binders) + (" " if binders else "")
-                s.out.append("Definition %s_pre %s: %s (%s + view) :=\n  %s.\n" % (coq_name, bs, monad, rty, render(pre)))
-                s.out.append("Definition %s_post (%s : io Z) : %s (option %s) :=\n  %s.\n" % (coq_name, q, monad, paren(rty), render(simp(post))))
+                s.out.append("Definition %s_pre %s: %s (%s + view) :=\n  %s.\n" % (coq_name, bs, monad, rty, touch + render(pre)))
+                s.out.append("Definition %s_post (%s : io Z) : %s (option %s) :=\n  %s.\n" % (coq_name, q, monad, paren(rty), touch + render(simp(post))))
             elif cfg.get("pure"):
                 c = f.seq(body, 0, K(lambda a, t: Ret(a), cheap=True))
                 if not is_pure(c):
                     raise Unsupported("expected a pure function")
-                s.out.append("Definition %s %s: %s :=\n  %s.\n" % (coq_name, " ".join(binders) + (" " if binders else ""), rty, c.p))
+                s.out.append("Definition %s %s: %s :=\n  %s.\n" % (coq_name, " ".join(binders) + (" " if binders else ""), rty, touch + c.p))
             elif len(body) == 1 and body[0]["k"] == "Expr" and body[0]["expr"]["k"] == "Loop":
                 f.ret_mode, f.maybe_vars = "maybe", ()
                 c = simp(f.seq(body[0]["expr"]["body"], 0, K(lambda a, t: Ret("None"), cheap=True)))
-                s.out.append("Definition %s_body %s%s: %s (option %s) :=\n  %s.\n" % (coq_name, impl, " ".join(binders) + (" " if binders else ""), monad, paren(rty), render(c)))
+                s.out.append("Definition %s_body %s%s: %s (option %s) :=\n  %s.\n" % (coq_name, impl, " ".join(binders) + (" " if binders else ""), monad, paren(rty), touch + render(c)))
                 names = " ".join(b.split(":")[0].strip("( ") for b in binders)
                 s.out.append("Definition %s (fuel : nat) %s%s: %s (fueled %s) :=\n  loop_fuel fuel (%s_body %s).\n" % (coq_name, impl, " ".join(binders) + (" " if binders else ""), monad, paren(rty), coq_name, names))
             else:
                 c = simp(f.seq(body, 0, K(lambda a, t: f.do_return(a, t), cheap=True)))
-                s.out.append("Definition %s %s%s: %s %s :=\n  %s.\n" % (coq_name, impl, " ".join(binders) + (" " if binders else ""), monad, paren(rty), render(c)))
+                s.out.append("Definition %s %s%s: %s %s :=\n  %s.\n" % (coq_name, impl, " ".join(binders) + (" " if binders else ""), monad, paren(rty), touch + render(c)))
             s.report.append((label, "translated", coq_name))
             return rt
         except Unsupported as ex:
@@ -193,10 +196,10 @@ def gen_fb(tr, em):
                 fields={"read_index": ("get_read_index", "set_read_index", "usize"),
                         "write_index": ("get_write_index", "set_write_index", "usize"),
                         "mem": ("get_mem", None, ("memfield",))})
-    pure_cfg = {"struct": st, "pure": True, "record": {"mem": "mem", "read_index": "read_index", "write_index": "write_index"}}
+    pure_cfg = {"struct": st, "pure": True, "touch": "(SIZE, chk)", "record": {"mem": "mem", "read_index": "read_index", "write_index": "write_index"}}
     for nm in ("new", "empty", "filled"):
         em.translate_fn("fixed-buffer/src/lib.rs", nm, nm, pure_cfg, self_like="FixedBuf")
-    cfg = {"struct": st, "monad": "MF", "auto_helpers": True}
+    cfg = {"struct": st, "monad": "MF", "auto_helpers": True, "touch": "(SIZE, chk)"}
     names = {"mem": "mem_"}
     order = ["len", "is_empty", "clear", "mem", "readable", "read_bytes", "read_byte", "try_read_byte", "try_read_bytes", "read_all",
              "read_and_copy_bytes", "try_read_exact", "writable", "wrote", "write_bytes", "write_str", "shift", "try_parse", "deframe"]
@@ -217,7 +220,7 @@ def gen_fb(tr, em):
         em.translate_fn("fixed-buffer/src/lib.rs", nm, cn, cfg, trait=trait, self_like="FixedBuf")
     # methods with a reader collaborator
     o.append("Context {RS : Type} (R : Reader RS).\nNotation MW := (M (fb * RS)).\n")
-    wcfg = {"struct": st, "monad": "MW", "lifted": True, "auto_helpers": True, "param_types": {"reader": ("reader",), "deframer_fn": ("deframer",)}}
+    wcfg = {"struct": st, "monad": "MW", "lifted": True, "auto_helpers": True, "touch": "(SIZE, chk)", "param_types": {"reader": ("reader",), "deframer_fn": ("deframer",)}}
     em.translate_fn("fixed-buffer/src/lib.rs", "copy_once_from", "copy_once_from", wcfg, self_like="FixedBuf")
     # the model represents Result<Option<&[u8]>, io::Error> by the three-constructor type frame_res; to_fr is that bijection
     em.translate_fn("fixed-buffer/src/lib.rs", "read_frame", "read_frame", dict(wcfg, ret_repr=("to_fr", "frame_res")), self_like="FixedBuf")
@@ -228,7 +231,7 @@ def gen_deframers(tr, em):
     o = em.out
     o.append("(* GENERATED by rs2v ast + vlib/translate.py from fixed-buffer/src/deframe_*.rs.  Do not edit. *)\n"
              "From FB Require Import Sem.Base.\nOpen Scope Z_scope.\n\nSection G.\nVariable chk : bool.\nNotation MU := (M unit).\n")
-    cfg = {"struct": None, "monad": "MU"}
+    cfg = {"struct": None, "monad": "MU", "touch": "chk"}
     for nm in ("deframe_line", "deframe_crlf", "deframe_null"):
         em.translate_fn("fixed-buffer/src/" + nm + ".rs", nm, nm, cfg)
     o.append("End G.\n")
@@ -292,7 +295,7 @@ def gen_tokio(tr, em):
         "mem": Sig("mem_", ("slice",), hint="m"), "shift": Sig("shift chk", "unit"), "writable": Sig("writable", ("view",), hint="writable"),
         "wrote": Sig("wrote chk", "unit"), "readable": Sig("readable", ("slice",), hint="readable"),
         "deframe": Sig("deframe chk", ("res", ("opt", ("range",)), ("err", "io")), hint="r")})
-    cfg = {"struct": st, "monad": "MF", "async": True, "param_types": {"reader": ("reader",), "deframer_fn": ("deframer",)}}
+    cfg = {"struct": st, "monad": "MF", "async": True, "touch": "chk", "param_types": {"reader": ("reader",), "deframer_fn": ("deframer",)}}
     F = "fixed-buffer-tokio/src/lib.rs"
     em.translate_fn(F, "copy_once_from", "aco", cfg, self_like="AsyncFixedBuf")
     em.translate_fn(F, "read_frame", "arf", dict(cfg, ret_repr=("to_fr", "frame_res")), self_like="AsyncFixedBuf")
@@ -300,7 +303,7 @@ def gen_tokio(tr, em):
     inner = Struct("AsyncFixedBuf", methods={
         "read_and_copy_bytes": Sig("read_and_copy_bytes chk", "usize", hint="q"),
         "write_bytes": Sig("write_bytes chk", ("res", "usize", ("err", "NotEnoughSpaceError")), hint="r")})
-    pcfg = {"struct": inner, "monad": "MF", "newtype": True, "param_types": {"_cx": ("skip",), "cx": ("skip",)}}
+    pcfg = {"struct": inner, "monad": "MF", "newtype": True, "touch": "chk", "param_types": {"_cx": ("skip",), "cx": ("skip",)}}
     for nm, cn in (("poll_read", "afb_poll_read"), ("poll_write", "afb_poll_write"), ("poll_flush", "afb_poll_flush"), ("poll_shutdown", "afb_poll_shutdown")):
         em.translate_fn(F, nm, cn, pcfg, trait="tokio::io::AsyncRead" if nm == "poll_read" else "tokio::io::AsyncWrite", self_like="AsyncFixedBuf")
     o.append("End G.\n")
@@ -354,16 +357,15 @@ def gen_escape(tr, em):
     o.append("(* GENERATED by rs2v ast + vlib/translate.py from fixed-buffer/src/escape_ascii.rs and FixedBuf::escape_ascii.  Do not edit. *)\n"
              "From FB Require Import Sem.Base Model.Fb Model.Escape.\nFrom FB Require Gen.FbGen.\nOpen Scope Z_scope.\n\nSection G.\nContext {S : Type}.\nNotation MS := (M S).\n")
     em.translate_fn("fixed-buffer/src/escape_ascii.rs", "escape_ascii", "escape_ascii", {"struct": None, "monad": "MS"})
-    o.append("End G.\n\nNotation MF := (M fb).\n")
+    o.append("End G.\n\nNotation MF := (M fb).\nSection D.\nVariable SIZE : Z.\nVariable chk : bool.\n")
     # FixedBuf::escape_ascii(&self) -> String { escape_ascii(self.readable()) }
     tr.free_fns["escape_ascii"] = Sig("escape_ascii", ("string",), world="free", hint="esc")
-    st = Struct("FixedBuf", methods={"readable": Sig("FbGen.readable", ("slice",), hint="readable")})
-    em.translate_fn("fixed-buffer/src/lib.rs", "escape_ascii", "fb_escape_ascii", {"struct": st, "monad": "MF"}, self_like="FixedBuf")
+    st = Struct("FixedBuf", methods={"readable": Sig("FbGen.readable SIZE chk", ("slice",), hint="readable")})
+    em.translate_fn("fixed-buffer/src/lib.rs", "escape_ascii", "fb_escape_ascii", {"struct": st, "monad": "MF", "touch": "(SIZE, chk)"}, self_like="FixedBuf")
     # impl Debug for FixedBuf: fmt(&self, f) = write!(f, "...", SIZE, SIZE - self.write_index, self.len(), self.escape_ascii()); the model's value is the text
-    o.append("Section D.\nVariable SIZE : Z.\nVariable chk : bool.\n")
     dst = Struct("FixedBuf", fields={"write_index": ("get_write_index", None, "usize"), "read_index": ("get_read_index", None, "usize")},
-                 methods={"len": Sig("FbGen.len chk", "usize", hint="len"), "escape_ascii": Sig("fb_escape_ascii", ("string",), hint="esc")})
-    em.translate_fn("fixed-buffer/src/lib.rs", "fmt", "debug_fmt", {"struct": dst, "monad": "MF", "fmt_fn": True, "param_types": {"f": ("skip",)},
+                 methods={"len": Sig("FbGen.len SIZE chk", "usize", hint="len"), "escape_ascii": Sig("fb_escape_ascii", ("string",), hint="esc")})
+    em.translate_fn("fixed-buffer/src/lib.rs", "fmt", "debug_fmt", {"struct": dst, "monad": "MF", "fmt_fn": True, "touch": "(SIZE, chk)", "param_types": {"f": ("skip",)},
                                                                    "ret_override": ("string",)}, trait="core::fmt::Debug", self_like="FixedBuf")
     o.append("End D.\n")
 
